@@ -499,14 +499,31 @@ def run_case(case, ctx):
             J[0] = int(rs.randint(1, K))
         Xs = [gen.arr(rs, [j, K], dt) for j in J]
         max_rank = gen.choice(rs, [None, K, K + 2, max(J)])
-        desc = {"I": I, "J": J, "K": K, "max_rank": max_rank, "dtype": dt, "slices": "generic"}
-        scores, loadings = pre.svd_compress_tensor_slices([x.copy() for x in Xs], compression_threshold=0.0, max_rank=max_rank)
+        thr0, kind0 = 0.0, "generic"
+        pick = rs.rand()
+        if pick < 0.2:
+            # singular values exactly ON the bound: rank-one slices compressed with threshold 1 keep their one singular value
+            Xs = [np.outer(gen.arr(rs, [j], dt), gen.arr(rs, [K], dt)).astype(dt) for j in J]
+            thr0, kind0 = 1.0, "rank-one-threshold-1"
+        elif pick < 0.4:
+            # an all-zero slice (an empty sample) among generic ones, any threshold: it has nothing to lose
+            z = int(rs.randint(I))
+            Xs[z] = np.zeros_like(Xs[z])
+            thr0, kind0 = float(gen.choice(rs, [0.0, 1e-12, 1e-3])), "zero-slice"
+            if thr0 > 0:
+                # with a positive threshold the other slices must not lose anything either: make them exactly rank one
+                Xs = [x if i_ == z else np.outer(gen.arr(rs, [x.shape[0]], dt), gen.arr(rs, [K], dt)).astype(dt) for i_, x in enumerate(Xs)]
+        desc = {"I": I, "J": J, "K": K, "max_rank": max_rank, "dtype": dt, "slices": kind0, "threshold": thr0}
+        ctx.count("svd_compress_slices/" + kind0)
+        scores, loadings = pre.svd_compress_tensor_slices([x.copy() for x in Xs], compression_threshold=thr0, max_rank=max_rank)
         for i in range(I):
             rec = ref.hp(scores[i]) if loadings[i] is None else ref.hp(loadings[i]) @ ref.hp(scores[i])
             ctx.count("clause/dense-preserved")
-            ok, why = _close(rec, Xs[i], float(np.linalg.norm(Xs[i])), eps, c=2e3)
+            ok, why = (rec.shape == Xs[i].shape, "shape %s" % (rec.shape,))
+            if ok:
+                ok, why = _close(rec, Xs[i], float(np.linalg.norm(Xs[i])), eps, c=2e3)
             if not ok:
-                viol("dense-preserved", "generic-slices", "loading @ score != slice %d (shape %s, max_rank %s) although no singular value may be dropped: %s" % (
+                viol("dense-preserved", kind0 + "-slices", "loading @ score != slice %d (shape %s, max_rank %s) although no singular value may be dropped: %s" % (
                     i, Xs[i].shape, max_rank, why), desc)
                 return
         ctx.nontriv(desc)
